@@ -6,5 +6,5 @@ CONSTANTS
   Letters = {4, 9, 11, 12, 23, 24, 25}
   HeaderIds = {1}
   Defects = {}
-INVARIANTS AcceptIffWellFormed ErrorIsACause RejectedHasCause CausesAgree ExposureInv EmitCase
+INVARIANTS AcceptIffWellFormed ErrorIsACause RejectedHasCause CausesAgree TruncationDescribes ExposureInv EmitCase
 CHECK_DEADLOCK FALSE
